@@ -170,55 +170,39 @@ def ev(t, env, st):
     return r
 
 
+def kids(t):
+    return () if t[0] in "nv" else ((t[2],) if t[0] == "u" else ((t[2], t[3]) if t[0] == "b" else tuple(t[2])))
+
 def is_bool(t):
     return t[0] in "ub" and t[1] in LOGICAL
 
-
 def welltyped(t):
-    if t[0] in "nv":
-        return True
-    kids = [t[2]] if t[0] == "u" else ([t[2], t[3]] if t[0] == "b" else list(t[2]))
-    if not all(welltyped(c) for c in kids):
-        return False
-    return is_bool(t) or not any(is_bool(c) for c in kids)
+    return all(welltyped(c) for c in kids(t)) and (is_bool(t) or not any(is_bool(c) for c in kids(t)))
 
+def rebuild(t, f):
+    """the tree with f applied to every leaf"""
+    if t[0] in "nv":
+        return f(t)
+    ks = [rebuild(c, f) for c in kids(t)]
+    return (t[0], t[1]) + (tuple(ks) if t[0] != "c" else (tuple(ks),) + t[3:])
 
 def norm(t):
-    if t[0] == "n":
-        return ("n", float(t[1]))
-    if t[0] == "v":
-        return t
-    if t[0] == "u":
-        return ("u", t[1], norm(t[2]))
-    if t[0] == "b":
-        return ("b", t[1], norm(t[2]), norm(t[3]))
-    return ("c", t[1], tuple(norm(c) for c in t[2]))
-
+    return rebuild(t, lambda l: ("n", float(l[1])) if l[0] == "n" else l)[:3 if t[0] == "c" else 4] if t[0] not in "nv" else (("n", float(t[1])) if t[0] == "n" else t)
 
 def shape(t):
-    if t[0] in "nv":
-        return "."
-    if t[0] == "u":
-        return (t[1], shape(t[2]))
-    if t[0] == "b":
-        return (t[1], shape(t[2]), shape(t[3]))
-    return (t[1],) + tuple(shape(c) for c in t[2])
-
+    return "." if t[0] in "nv" else (t[1],) + tuple(shape(c) for c in kids(t))
 
 def used(t, vs, es):
     if t[0] == "v":
         vs.add(t[1])
     elif t[0] != "n":
         es.add(t[1])
-        for c in ([t[2]] if t[0] == "u" else ([t[2], t[3]] if t[0] == "b" else t[2])):
+        for c in kids(t):
             used(c, vs, es)
     return vs, es
 
-
 def height(t):
-    if t[0] in "nv":
-        return 1
-    return 1 + max([height(c) for c in ([t[2]] if t[0] == "u" else ([t[2], t[3]] if t[0] == "b" else t[2]))] or [0])
+    return 1 + max([height(c) for c in kids(t)] or [0])
 
 
 # ------------------------------------------------------------------ printer (tokens) and spacing
@@ -778,6 +762,10 @@ def _elements(R):
             for rep in range(3):
                 envs = R.find_envs([t], want=5, tries=200)
                 assert envs, ("no tame valuation for element", n)
+                vs = sorted(used(t, set(), set())[0])
+                if len(vs) == 2:                                   # equal arguments (boundary of the relational functions)
+                    v = R.rng.choice(POOL)
+                    envs = R.find_envs([t], want=1, tries=1, fixed={vs[0]: v, vs[1]: v}) + envs
                 R.check_tree(t, envs, "value:function:" + n, "not-elementwise:" + n, styles=("min",), do_ill=False)
             if R.skipped != before:
                 R.bad[n] = [c for c in R.skipped if R.skipped[c] != before.get(c, 0)][0]
